@@ -43,6 +43,26 @@ package simplefixgo
 //@   forall k string
 //@   ensures[C19] @appended mhas(p.handlers, msgType) && len(mget(p.handlers, msgType)) == old(ite(mhas(p.handlers, msgType), len(mget(p.handlers, msgType)), 0)) + 1 && nth(mget(p.handlers, msgType), len(mget(p.handlers, msgType)) - 1) == handle
 //@   ensures[C19] @others imp(k != msgType, mhas(p.handlers, k) == old(mhas(p.handlers, k)) && mget(p.handlers, k) == old(mget(p.handlers, k)))
+//@   forall j int
+//@   ensures[C19] @kept imp(old(mhas(p.handlers, msgType)) && 0 <= j && j < old(len(mget(p.handlers, msgType))), nth(mget(p.handlers, msgType), j) == old(nth(mget(p.handlers, msgType), j)))
+
+// the public registration functions: a handler goes to the end of the list of its type
+//@ func (p *HandlerPool) Add(msgType string, handle OutgoingHandlerFunc) (id int64)
+//@   requires p != nil && p.handlers != nil
+//@   modifies MAP
+//@   forall k string
+//@   forall j int
+//@   ensures[C19] @appended mhas(p.handlers, msgType) && len(mget(p.handlers, msgType)) == old(ite(mhas(p.handlers, msgType), len(mget(p.handlers, msgType)), 0)) + 1 && nth(mget(p.handlers, msgType), len(mget(p.handlers, msgType)) - 1) == handle
+//@   ensures[C19] @others imp(k != msgType, mhas(p.handlers, k) == old(mhas(p.handlers, k)) && mget(p.handlers, k) == old(mget(p.handlers, k)))
+//@   ensures[C19] @kept imp(old(mhas(p.handlers, msgType)) && 0 <= j && j < old(len(mget(p.handlers, msgType))), nth(mget(p.handlers, msgType), j) == old(nth(mget(p.handlers, msgType), j)))
+//@ func (p *IncomingHandlerPool) Add(msgType string, handle IncomingHandlerFunc) (id int64)
+//@   requires p != nil && p.HandlerPool != nil && p.HandlerPool.handlers != nil
+//@   modifies MAP
+//@   forall k string
+//@   forall j int
+//@   ensures[C19] @appended mhas(p.HandlerPool.handlers, msgType) && len(mget(p.HandlerPool.handlers, msgType)) == old(ite(mhas(p.HandlerPool.handlers, msgType), len(mget(p.HandlerPool.handlers, msgType)), 0)) + 1 && nth(mget(p.HandlerPool.handlers, msgType), len(mget(p.HandlerPool.handlers, msgType)) - 1) == handle
+//@   ensures[C19] @others imp(k != msgType, mhas(p.HandlerPool.handlers, k) == old(mhas(p.HandlerPool.handlers, k)) && mget(p.HandlerPool.handlers, k) == old(mget(p.HandlerPool.handlers, k)))
+//@   ensures[C19] @kept imp(old(mhas(p.HandlerPool.handlers, msgType)) && 0 <= j && j < old(len(mget(p.HandlerPool.handlers, msgType))), nth(mget(p.HandlerPool.handlers, msgType), j) == old(nth(mget(p.HandlerPool.handlers, msgType), j)))
 
 //@ func (p *HandlerPool) handlersByMsgType(msgType string) (result []interface{})
 //@   pure
